@@ -1,6 +1,1290 @@
-//! C06: harness commands for property C06 (stub).
+//! C06: GSUB applied as the OpenType substitution model prescribes.  Public-API harness.
+//!
+//!   rbv c06 gen --seed S --fonts N --texts T [--first K] [--only K] [--ops OPS] [--dump]
+//!        for every generated font k:   `font <k>` / `coq <term>` / `kinds <type,..>` (lookup kinds by index)
+//!        with --dump also               `dbg <FontSpec Debug>` / `b64 <font bytes>`
+//!        for every request j:           `req <j> <fmt_req>` / `uf <j> <tag> <value> <start> <end>`* /
+//!                                       `out <j> <gid=cluster#flags|...>` or `out <j> panic <class>` /
+//!                                       `fired <j> <lookup index,..>` (lookups whose removal changes the result)
+//!        --ops: shrink operations applied to the regenerated font/requests (see `apply_ops`)
+//!   rbv c06 variants --seed S --only K --text J [--ops OPS]   one-step shrink candidates of font K / request J:
+//!        `variant <ops>` followed by the same lines as `gen` for that single request
+//!   rbv c06 oracle --seed S --n N     independent oracles (single=map, ligature greedy+min cluster, multiple=flat_map,
+//!        alternate=value k, stage ordering): `oracle-fail <kind> ...` lines + `oracle-summary ...`
+//!   rbv c06 corpus                    the fixed regression fonts (move_to rewind, ...) in `gen` format
+//!   rbv c06 shape-b64 --req "<req>"   font bytes (base64) on stdin, prints `ok <glyphs>` / `panic <class>`
+use crate::fontgen::coq::ToCoq;
+use crate::fontgen::*;
+use crate::shp::*;
+use crate::util::*;
+use std::io::Read;
 
-pub fn run(_args: &[String]) {
-    eprintln!("c06: not implemented");
-    std::process::exit(2);
+pub fn run(args: &[String]) {
+    quiet_panics();
+    match args.get(0).map(|s| s.as_str()) {
+        Some("gen") => gen(args),
+        Some("variants") => variants(args),
+        Some("oracle") => oracle(args),
+        Some("corpus") => corpus(args),
+        Some("shape-b64") => shape_b64(args),
+        _ => {
+            eprintln!("c06 gen|variants|oracle|corpus|shape-b64");
+            std::process::exit(2)
+        }
+    }
+}
+
+// ---------------------------------------------------------------------------------------------
+// base64
+
+const B64: &[u8; 64] = b"ABCDEFGHIJKLMNOPQRSTUVWXYZabcdefghijklmnopqrstuvwxyz0123456789+/";
+
+pub fn b64_encode(d: &[u8]) -> String {
+    let mut s = String::with_capacity(d.len() * 4 / 3 + 4);
+    for c in d.chunks(3) {
+        let b = [c[0], *c.get(1).unwrap_or(&0), *c.get(2).unwrap_or(&0)];
+        let n = ((b[0] as u32) << 16) | ((b[1] as u32) << 8) | b[2] as u32;
+        s.push(B64[(n >> 18) as usize & 63] as char);
+        s.push(B64[(n >> 12) as usize & 63] as char);
+        s.push(if c.len() > 1 { B64[(n >> 6) as usize & 63] as char } else { '=' });
+        s.push(if c.len() > 2 { B64[n as usize & 63] as char } else { '=' });
+    }
+    s
+}
+
+pub fn b64_decode(s: &str) -> Vec<u8> {
+    let mut out = Vec::new();
+    let mut acc = 0u32;
+    let mut bits = 0;
+    for ch in s.bytes() {
+        let v = match ch {
+            b'A'..=b'Z' => ch - b'A',
+            b'a'..=b'z' => ch - b'a' + 26,
+            b'0'..=b'9' => ch - b'0' + 52,
+            b'+' => 62,
+            b'/' => 63,
+            _ => continue,
+        } as u32;
+        acc = (acc << 6) | v;
+        bits += 6;
+        if bits >= 8 {
+            bits -= 8;
+            out.push((acc >> bits) as u8);
+            acc &= (1 << bits) - 1;
+        }
+    }
+    out
+}
+
+// ---------------------------------------------------------------------------------------------
+// generator
+
+#[derive(Clone, Debug)]
+pub struct Case {
+    pub spec: FontSpec,
+    pub reqs: Vec<Req>,
+}
+
+struct G0 {
+    n: u16,   // number of glyphs (ids 0..n)
+    hot: u16, // glyphs 1..=hot are frequent in texts and coverages
+    marks: Vec<u16>,
+}
+
+fn pick_glyph(r: &mut Rng, g: &G0) -> u16 {
+    if r.chance(7, 10) {
+        r.range(1, g.hot as u64) as u16
+    } else if !g.marks.is_empty() && r.chance(1, 3) {
+        *r.pick(&g.marks)
+    } else {
+        r.range(1, g.n as u64 - 1) as u16
+    }
+}
+
+fn to_cov(r: &mut Rng, mut gs: Vec<u16>) -> Coverage {
+    gs.sort();
+    gs.dedup();
+    if r.chance(2, 5) {
+        let mut rs: Vec<(u16, u16)> = Vec::new();
+        for g in gs {
+            if let Some(l) = rs.last_mut() {
+                if l.1 + 1 == g {
+                    l.1 = g;
+                    continue;
+                }
+            }
+            rs.push((g, g));
+        }
+        Coverage::Ranges(rs)
+    } else {
+        Coverage::Glyphs(gs)
+    }
+}
+
+fn gen_cov(r: &mut Rng, g: &G0, lo: u64, hi: u64) -> Coverage {
+    let k = r.range(lo, hi);
+    let gs: Vec<u16> = (0..k).map(|_| pick_glyph(r, g)).collect();
+    to_cov(r, gs)
+}
+
+fn gen_classdef(r: &mut Rng, g: &G0) -> ClassDef {
+    // classes 0..3 per glyph; hot glyphs mostly non-zero
+    let mut cl: Vec<u16> = vec![0; g.n as usize];
+    for gid in 1..g.n {
+        let p = if gid <= g.hot { 8 } else { 3 };
+        if r.chance(p, 10) {
+            cl[gid as usize] = r.range(1, 3) as u16;
+        }
+    }
+    if r.chance(1, 2) {
+        let first = (1..g.n).find(|x| cl[*x as usize] != 0).unwrap_or(1);
+        let last = (1..g.n).rev().find(|x| cl[*x as usize] != 0).unwrap_or(1);
+        ClassDef::Format1 { start: first, classes: (first..=last).map(|x| cl[x as usize]).collect() }
+    } else {
+        let mut ranges: Vec<(u16, u16, u16)> = Vec::new();
+        for gid in 1..g.n {
+            let c = cl[gid as usize];
+            if c == 0 {
+                continue;
+            }
+            if let Some(l) = ranges.last_mut() {
+                if l.2 == c && l.1 + 1 == gid {
+                    l.1 = gid;
+                    continue;
+                }
+            }
+            ranges.push((gid, gid, c));
+        }
+        ClassDef::Format2 { ranges }
+    }
+}
+
+#[derive(Clone, Copy, PartialEq, Eq, Debug)]
+enum Kind {
+    Single,
+    Multiple,
+    Alternate,
+    Ligature,
+    Context,
+    Chain,
+    Reverse,
+}
+
+fn kind_name(k: Kind) -> &'static str {
+    match k {
+        Kind::Single => "single",
+        Kind::Multiple => "multiple",
+        Kind::Alternate => "alternate",
+        Kind::Ligature => "ligature",
+        Kind::Context => "context",
+        Kind::Chain => "chain",
+        Kind::Reverse => "reverse",
+    }
+}
+
+fn kind_of(l: &Lookup<SubstSubtable>) -> &'static str {
+    use SubstSubtable::*;
+    match l.subtables.first() {
+        None => "empty",
+        Some(Single1 { .. }) | Some(Single2 { .. }) => "single",
+        Some(Multiple { .. }) => "multiple",
+        Some(Alternate { .. }) => "alternate",
+        Some(Ligature { .. }) => "ligature",
+        Some(Context1 { .. }) => "context1",
+        Some(Context2 { .. }) => "context2",
+        Some(Context3 { .. }) => "context3",
+        Some(ChainContext1 { .. }) => "chain1",
+        Some(ChainContext2 { .. }) => "chain2",
+        Some(ChainContext3 { .. }) => "chain3",
+        Some(ReverseChain { .. }) => "reverse",
+    }
+}
+
+fn gen_records(r: &mut Rng, kinds: &[Kind], input_len: usize, me: usize) -> Vec<SeqLookup> {
+    let k = match r.below(10) {
+        0 => 0,
+        1..=5 => 1,
+        6..=8 => 2,
+        _ => 3,
+    };
+    let simple: Vec<usize> = (0..kinds.len()).filter(|i| !matches!(kinds[*i], Kind::Context | Kind::Chain | Kind::Reverse)).collect();
+    (0..k)
+        .map(|_| {
+            let si = if r.chance(1, 12) { input_len as u64 + 1 + r.below(2) } else { r.below(input_len as u64 + 1) };
+            let li = if !simple.is_empty() && r.chance(7, 10) {
+                *r.pick(&simple) as u64
+            } else if r.chance(1, 6) {
+                me as u64 // recursion ring
+            } else if r.chance(1, 15) {
+                kinds.len() as u64 + r.below(2) // out of range
+            } else {
+                r.below(kinds.len() as u64)
+            };
+            SeqLookup { sequence_index: si as u16, lookup_index: li as u16 }
+        })
+        .collect()
+}
+
+fn gen_seq(r: &mut Rng, g: &G0, lo: u64, hi: u64) -> Vec<u16> {
+    let k = r.range(lo, hi);
+    (0..k).map(|_| pick_glyph(r, g)).collect()
+}
+
+fn gen_subtable(r: &mut Rng, g: &G0, kind: Kind, kinds: &[Kind], me: usize) -> SubstSubtable {
+    use SubstSubtable::*;
+    match kind {
+        Kind::Single => {
+            if r.chance(1, 3) {
+                let coverage = gen_cov(r, g, 1, 5);
+                let delta = if r.chance(1, 10) { -(r.range(1, g.n as u64) as i16) } else { r.range(1, (g.n as u64 / 2).max(1)) as i16 };
+                Single1 { coverage, delta }
+            } else {
+                let coverage = gen_cov(r, g, 1, 6);
+                let n = coverage.len();
+                let n = if r.chance(1, 12) { n.saturating_sub(1) } else { n };
+                Single2 { coverage, substitutes: (0..n).map(|_| pick_glyph(r, g)).collect() }
+            }
+        }
+        Kind::Multiple => {
+            let coverage = gen_cov(r, g, 1, 5);
+            let n = coverage.len();
+            let sequences = (0..n)
+                .map(|_| match r.below(10) {
+                    0 | 1 => Vec::new(),
+                    2 | 3 => gen_seq(r, g, 1, 1),
+                    4..=7 => gen_seq(r, g, 2, 2),
+                    _ => gen_seq(r, g, 3, 4),
+                })
+                .collect();
+            Multiple { coverage, sequences }
+        }
+        Kind::Alternate => {
+            let coverage = gen_cov(r, g, 1, 5);
+            let n = coverage.len();
+            let alternates = (0..n).map(|_| if r.chance(1, 12) { Vec::new() } else { gen_seq(r, g, 1, 4) }).collect();
+            Alternate { coverage, alternates }
+        }
+        Kind::Ligature => {
+            let coverage = gen_cov(r, g, 1, 4);
+            let n = coverage.len();
+            let ligature_sets = (0..n)
+                .map(|_| {
+                    let k = r.range(1, 3);
+                    (0..k)
+                        .map(|_| {
+                            let components = match r.below(12) {
+                                0 => Vec::new(),
+                                1..=6 => gen_seq(r, g, 1, 1),
+                                7..=9 => gen_seq(r, g, 2, 2),
+                                _ => gen_seq(r, g, 3, 5),
+                            };
+                            crate::fontgen::Ligature { glyph: pick_glyph(r, g), components }
+                        })
+                        .collect()
+                })
+                .collect();
+            Ligature { coverage, ligature_sets }
+        }
+        Kind::Context => match r.below(3) {
+            0 => {
+                let coverage = gen_cov(r, g, 1, 4);
+                let n = coverage.len();
+                let rule_sets = (0..n)
+                    .map(|_| {
+                        let k = if r.chance(1, 10) { 0 } else { r.range(1, 3) };
+                        (0..k)
+                            .map(|_| {
+                                let input = gen_seq(r, g, 0, 3);
+                                let lookups = gen_records(r, kinds, input.len(), me);
+                                SeqRule { input, lookups }
+                            })
+                            .collect()
+                    })
+                    .collect();
+                Context1 { coverage, rule_sets }
+            }
+            1 => {
+                let class_def = gen_classdef(r, g);
+                let coverage = gen_cov(r, g, 2, 8);
+                let rule_sets = (0..r.range(2, 4))
+                    .map(|_| {
+                        if r.chance(1, 5) {
+                            None
+                        } else {
+                            Some(
+                                (0..r.range(1, 3))
+                                    .map(|_| {
+                                        let input: Vec<u16> = (0..r.range(0, 3)).map(|_| r.below(4) as u16).collect();
+                                        let lookups = gen_records(r, kinds, input.len(), me);
+                                        SeqRule { input, lookups }
+                                    })
+                                    .collect(),
+                            )
+                        }
+                    })
+                    .collect();
+                Context2 { coverage, class_def, rule_sets }
+            }
+            _ => {
+                let k = r.range(1, 4);
+                let coverages: Vec<Coverage> = (0..k).map(|_| gen_cov(r, g, 1, 6)).collect();
+                let lookups = gen_records(r, kinds, k as usize - 1, me);
+                Context3 { coverages, lookups }
+            }
+        },
+        Kind::Chain => match r.below(3) {
+            0 => {
+                let coverage = gen_cov(r, g, 1, 4);
+                let n = coverage.len();
+                let rule_sets = (0..n)
+                    .map(|_| {
+                        let k = if r.chance(1, 10) { 0 } else { r.range(1, 3) };
+                        (0..k)
+                            .map(|_| {
+                                let input = gen_seq(r, g, 0, 2);
+                                let lookups = gen_records(r, kinds, input.len(), me);
+                                ChainRule { backtrack: gen_seq(r, g, 0, 2), input, lookahead: gen_seq(r, g, 0, 2), lookups }
+                            })
+                            .collect()
+                    })
+                    .collect();
+                ChainContext1 { coverage, rule_sets }
+            }
+            1 => {
+                let coverage = gen_cov(r, g, 2, 8);
+                let rule_sets = (0..r.range(2, 4))
+                    .map(|_| {
+                        if r.chance(1, 5) {
+                            None
+                        } else {
+                            Some(
+                                (0..r.range(1, 3))
+                                    .map(|_| {
+                                        let input: Vec<u16> = (0..r.range(0, 2)).map(|_| r.below(4) as u16).collect();
+                                        let lookups = gen_records(r, kinds, input.len(), me);
+                                        ChainRule {
+                                            backtrack: (0..r.range(0, 2)).map(|_| r.below(4) as u16).collect(),
+                                            input,
+                                            lookahead: (0..r.range(0, 2)).map(|_| r.below(4) as u16).collect(),
+                                            lookups,
+                                        }
+                                    })
+                                    .collect(),
+                            )
+                        }
+                    })
+                    .collect();
+                ChainContext2 {
+                    coverage,
+                    backtrack_classes: gen_classdef(r, g),
+                    input_classes: gen_classdef(r, g),
+                    lookahead_classes: gen_classdef(r, g),
+                    rule_sets,
+                }
+            }
+            _ => {
+                let k = r.range(1, 3);
+                let input: Vec<Coverage> = (0..k).map(|_| gen_cov(r, g, 1, 6)).collect();
+                let backtrack: Vec<Coverage> = (0..r.range(0, 2)).map(|_| gen_cov(r, g, 1, 8)).collect();
+                let lookahead: Vec<Coverage> = (0..r.range(0, 2)).map(|_| gen_cov(r, g, 1, 8)).collect();
+                let lookups = gen_records(r, kinds, k as usize - 1, me);
+                ChainContext3 { backtrack, input, lookahead, lookups }
+            }
+        },
+        Kind::Reverse => {
+            let coverage = gen_cov(r, g, 1, 5);
+            let n = coverage.len();
+            let n = if r.chance(1, 12) { n.saturating_sub(1) } else { n };
+            ReverseChain {
+                coverage,
+                backtrack: (0..r.range(0, 2)).map(|_| gen_cov(r, g, 1, 8)).collect(),
+                lookahead: (0..r.range(0, 2)).map(|_| gen_cov(r, g, 1, 8)).collect(),
+                substitutes: (0..n).map(|_| pick_glyph(r, g)).collect(),
+            }
+        }
+    }
+}
+
+const DEFAULT_ON: &[&[u8; 4]] = &[b"liga", b"calt", b"ccmp", b"rlig", b"locl", b"clig", b"rclt", b"rvrn", b"ltra", b"ltrm", b"rtla", b"rtlm"];
+const USER_TAGS: &[&[u8; 4]] = &[b"ss01", b"ss02", b"smcp", b"aalt", b"salt", b"frac", b"numr"];
+
+fn gen_font(r: &mut Rng) -> (FontSpec, G0) {
+    let n: u16 = match r.below(10) {
+        0 => r.range(4, 7) as u16,
+        1..=7 => r.range(8, 24) as u16,
+        _ => r.range(25, 64) as u16,
+    };
+    let hot = r.range(3, (n as u64 - 1).min(8)) as u16;
+    let mut spec = FontSpec::basic(n);
+    if r.chance(1, 4) {
+        spec.cmap_format = CmapFormat::Format4;
+    }
+    let mut g = G0 { n, hot, marks: Vec::new() };
+    // ---- GDEF
+    match r.below(20) {
+        0..=2 => {}
+        3 | 4 => {
+            // GDEF without glyph class definition (mark sets only)
+            let set: Vec<u16> = (1..n).filter(|_| r.chance(1, 3)).collect();
+            spec.gdef = Some(Gdef { glyph_classes: vec![], mark_attach_classes: vec![], mark_glyph_sets: if set.is_empty() { vec![] } else { vec![set] } });
+        }
+        _ => {
+            let mut glyph_classes = Vec::new();
+            let mut mark_attach_classes = Vec::new();
+            for gid in 1..n {
+                let c = match r.below(20) {
+                    0..=9 => 1,
+                    10..=14 => 3,
+                    15..=17 => 2,
+                    18 => 4,
+                    _ => 0,
+                };
+                if c != 0 {
+                    glyph_classes.push((gid, c));
+                }
+                if c == 3 {
+                    g.marks.push(gid);
+                    if r.chance(2, 3) {
+                        mark_attach_classes.push((gid, r.range(1, 3) as u16));
+                    }
+                } else if r.chance(1, 20) {
+                    mark_attach_classes.push((gid, r.range(1, 3) as u16)); // attach class on a non-mark: ignored
+                }
+            }
+            let nsets = r.below(3);
+            let mark_glyph_sets: Vec<Vec<u16>> = (0..nsets)
+                .map(|_| (1..n).filter(|x| if g.marks.contains(x) { r.chance(1, 2) } else { r.chance(1, 12) }).collect::<Vec<u16>>())
+                .collect();
+            spec.gdef = Some(Gdef { glyph_classes, mark_attach_classes, mark_glyph_sets });
+        }
+    }
+    let nsets = spec.gdef.as_ref().map(|d| d.mark_glyph_sets.len()).unwrap_or(0);
+    // ---- lookups
+    let nl = match r.below(12) {
+        0 => 1,
+        1..=7 => r.range(2, 6),
+        8..=10 => r.range(7, 12),
+        _ => r.range(13, 24),
+    } as usize;
+    // focused fonts: one contextual lookup on top, the others (simple ones) reachable only through nesting
+    let focused = r.chance(1, 3);
+    let nl = if focused { r.range(2, 5) as usize } else { nl };
+    let kinds: Vec<Kind> = (0..nl)
+        .map(|i| if focused {
+            if i == 0 { if r.chance(1, 2) { Kind::Context } else { Kind::Chain } } else {
+                match r.below(10) { 0..=2 => Kind::Single, 3..=5 => Kind::Multiple, 6..=8 => Kind::Ligature, _ => Kind::Context }
+            }
+        } else { match r.below(20) {
+            0..=3 => Kind::Single,
+            4..=6 => Kind::Multiple,
+            7..=8 => Kind::Alternate,
+            9..=12 => Kind::Ligature,
+            13..=15 => Kind::Context,
+            16..=18 => Kind::Chain,
+            _ => Kind::Reverse,
+        } })
+        .collect();
+    let mut lookups = Vec::new();
+    for (i, k) in kinds.iter().enumerate() {
+        let nst = match r.below(10) {
+            0..=5 => 1,
+            6..=8 => 2,
+            _ => r.range(3, 6),
+        };
+        let subtables: Vec<SubstSubtable> = (0..nst).map(|_| gen_subtable(r, &g, *k, &kinds, i)).collect();
+        let mut flags: u16 = 0;
+        let mut mfs = None;
+        if r.chance(1, 2) {
+            if r.chance(1, 2) {
+                flags |= lookup_flags::IGNORE_MARKS;
+            }
+            if r.chance(1, 6) {
+                flags |= lookup_flags::IGNORE_BASE_GLYPHS;
+            }
+            if r.chance(1, 5) {
+                flags |= lookup_flags::IGNORE_LIGATURES;
+            }
+            if r.chance(1, 4) {
+                flags |= (r.range(1, 3) as u16) << 8;
+            }
+            if r.chance(1, 4) {
+                // sometimes a set index that does not exist
+                mfs = Some(if nsets > 0 && r.chance(5, 6) { r.below(nsets as u64) as u16 } else { nsets as u16 + r.below(2) as u16 });
+            }
+            if r.chance(1, 10) {
+                flags |= lookup_flags::RIGHT_TO_LEFT;
+            }
+        }
+        lookups.push(Lookup { flags, mark_filtering_set: mfs, subtables, use_extension: r.chance(1, 8) });
+    }
+    // ---- features
+    let nf = r.range(1, 5) as usize;
+    let mut features: Vec<FeatureRecord> = (0..nf)
+        .map(|_| {
+            let tag = if r.chance(2, 3) { **r.pick(DEFAULT_ON) } else { **r.pick(USER_TAGS) };
+            FeatureRecord { tag, lookup_indices: Vec::new() }
+        })
+        .collect();
+    if focused || r.chance(2, 3) {
+        features[0].tag = *b"liga";
+    }
+    for li in 0..nl {
+        let k = if focused {
+            if li == 0 { 1 } else if r.chance(1, 4) { 1 } else { 0 }
+        } else {
+            match r.below(20) {
+                0..=14 => 1,
+                15..=17 => 2,
+                _ => 0,
+            }
+        };
+        for _ in 0..k {
+            let f = if focused && li == 0 { 0 } else { r.below(nf as u64) as usize };
+            if !features[f].lookup_indices.contains(&(li as u16)) || r.chance(1, 4) {
+                features[f].lookup_indices.push(li as u16);
+            }
+        }
+    }
+    for f in features.iter_mut() {
+        if r.chance(1, 4) {
+            // unsorted lookup list
+            let k = f.lookup_indices.len();
+            for i in (1..k).rev() {
+                let j = r.below(i as u64 + 1) as usize;
+                f.lookup_indices.swap(i, j);
+            }
+        }
+        if r.chance(1, 15) {
+            f.lookup_indices.push(nl as u16 + r.below(2) as u16); // out of range: ignored
+        }
+    }
+    // ---- scripts
+    let all: Vec<u16> = (0..nf as u16).collect();
+    let subset = |r: &mut Rng| -> Vec<u16> {
+        let mut v: Vec<u16> = all.iter().copied().filter(|_| r.chance(9, 10)).collect();
+        if r.chance(1, 5) {
+            v.reverse();
+        }
+        v
+    };
+    let req = |r: &mut Rng| -> Option<u16> {
+        if r.chance(1, 5) {
+            let extra = if r.chance(1, 10) { 1 } else { 0 };
+            Some(r.below(nf as u64 + extra) as u16)
+        } else {
+            None
+        }
+    };
+    let ls = |r: &mut Rng| LangSys { required_feature: req(r), feature_indices: subset(r) };
+    let scripts = match r.below(20) {
+        0..=13 => vec![ScriptRecord { tag: *b"DFLT", default_langsys: Some(ls(r)), langsys: vec![] }],
+        14 | 15 => vec![ScriptRecord { tag: *b"DFLT", default_langsys: Some(ls(r)), langsys: vec![(*b"dflt", ls(r))] }],
+        16 => vec![ScriptRecord { tag: *b"latn", default_langsys: Some(ls(r)), langsys: vec![(*b"ENG ", ls(r))] }],
+        17 => vec![
+            ScriptRecord { tag: *b"DFLT", default_langsys: Some(ls(r)), langsys: vec![] },
+            ScriptRecord { tag: *b"latn", default_langsys: Some(ls(r)), langsys: vec![] },
+        ],
+        18 => vec![ScriptRecord { tag: *b"dflt", default_langsys: Some(ls(r)), langsys: vec![] }],
+        _ => vec![ScriptRecord { tag: *b"DFLT", default_langsys: None, langsys: vec![(*b"ENG ", ls(r))] }],
+    };
+    spec.gsub = Some(Layout { scripts, features, lookups });
+    (spec, g)
+}
+
+fn tag_str(t: &Tag) -> String {
+    String::from_utf8_lossy(t).to_string()
+}
+
+fn gen_req(r: &mut Rng, spec: &FontSpec, g: &G0) -> Req {
+    let len = match r.below(20) {
+        0 => 1,
+        1..=12 => r.range(2, 8),
+        13..=17 => r.range(9, 16),
+        _ => r.range(17, 40),
+    } as usize;
+    let gl: Vec<u16> = (0..len)
+        .map(|_| if r.chance(3, 4) { r.range(1, g.hot as u64) as u16 } else { pick_glyph(r, g) })
+        .collect();
+    let clusters: Vec<u32> = match r.below(12) {
+        0..=6 => (0..len as u32).collect(),
+        7 => (0..len as u32).map(|i| i * 2 + 3).collect(),
+        8 => (0..len as u32).map(|i| i / 2).collect(),
+        9 => vec![5; len],
+        10 => (0..len as u32).rev().collect(),
+        _ => (0..len).map(|_| r.below(len as u64 + 2) as u32).collect(),
+    };
+    let text: Vec<(u32, u32)> = gl.iter().zip(clusters.iter()).map(|(g, c)| (pua(*g as u32 - 1), *c)).collect();
+    let dir = match r.below(10) {
+        0..=5 => None,
+        6 | 7 => Some(rustybuzz::Direction::LeftToRight),
+        _ => Some(rustybuzz::Direction::RightToLeft),
+    };
+    let mut features = Vec::new();
+    let ftags: Vec<Tag> = spec.gsub.as_ref().map(|l| l.features.iter().map(|f| f.tag).collect()).unwrap_or_default();
+    let nuf = match r.below(10) {
+        0..=3 => 0,
+        4..=7 => 1,
+        8 => 2,
+        _ => 3,
+    };
+    for _ in 0..nuf {
+        let tag = if !ftags.is_empty() && r.chance(4, 5) { tag_str(r.pick(&ftags)) } else { tag_str(*r.pick(USER_TAGS)) };
+        let maxc = clusters.iter().copied().max().unwrap_or(0) as u64;
+        let range = match r.below(6) {
+            0..=2 => String::new(),
+            3 => {
+                let a = r.below(maxc + 2);
+                let b = a + r.below(maxc + 2);
+                format!("[{}:{}]", a, b)
+            }
+            4 => format!("[{}:]", r.below(maxc + 2)),
+            _ => format!("[{}]", r.below(maxc + 2)),
+        };
+        let f = match r.below(8) {
+            0 | 1 => format!("{}{}", tag, range),
+            2 => format!("-{}{}", tag, range),
+            3 => format!("{}{}=0", tag, range),
+            4 => format!("{}{}=1", tag, range),
+            5 => format!("{}{}=2", tag, range),
+            6 => format!("{}{}=3", tag, range),
+            _ => format!("{}{}={}", tag, range, [4u32, 5, 255, 256, 300][r.below(5) as usize]),
+        };
+        features.push(f);
+    }
+    Req {
+        text,
+        dir,
+        script: None,
+        lang: None,
+        features,
+        flags: match r.below(10) {
+            0..=5 => 0,
+            6 | 7 => 0x40,
+            8 => 3,
+            _ => 0x43,
+        },
+        level: match r.below(10) {
+            0..=4 => 0,
+            5..=7 => 1,
+            _ => 2,
+        },
+        pre: vec![],
+        post: vec![],
+        nf_vs: None,
+    }
+}
+
+pub fn gen_case(seed: u64, k: u64, texts: u64) -> Case {
+    let mut r = Rng::new(seed.wrapping_mul(0x9E37_79B9).wrapping_add(k.wrapping_mul(0x85EB_CA6B)).wrapping_add(0xC06));
+    let (spec, g) = gen_font(&mut r);
+    let reqs = (0..texts).map(|_| gen_req(&mut r, &spec, &g)).collect();
+    Case { spec, reqs }
+}
+
+// ---------------------------------------------------------------------------------------------
+// shrink operations: `dl:i` empty lookup i; `ds:i:j` drop subtable j of lookup i; `dr:i:j:a:b` drop rule b of
+// rule set a of subtable j of lookup i (ligature sets, context/chain rule sets; a ignored for format 3: drop
+// record b); `dc:q:p` drop character p of request q; `df:q:i` drop user feature i of request q;
+// `zf:i` zero the flags of lookup i; `dg` drop GDEF; `fl:q` buffer flags := 0; `lv:q` level := 0
+
+fn drop_at<T>(v: &mut Vec<T>, i: usize) -> bool {
+    if i < v.len() {
+        v.remove(i);
+        true
+    } else {
+        false
+    }
+}
+
+pub fn apply_op(c: &mut Case, op: &str) -> bool {
+    let p: Vec<&str> = op.split(':').collect();
+    let n = |i: usize| -> usize { p.get(i).and_then(|x| x.parse().ok()).unwrap_or(usize::MAX) };
+    let Some(gsub) = c.spec.gsub.as_mut() else { return false };
+    use SubstSubtable::*;
+    match p[0] {
+        "dl" => match gsub.lookups.get_mut(n(1)) {
+            Some(l) if !l.subtables.is_empty() => {
+                l.subtables.clear();
+                true
+            }
+            _ => false,
+        },
+        "ds" => gsub.lookups.get_mut(n(1)).map(|l| drop_at(&mut l.subtables, n(2))).unwrap_or(false),
+        "dr" => {
+            let Some(st) = gsub.lookups.get_mut(n(1)).and_then(|l| l.subtables.get_mut(n(2))) else { return false };
+            let (a, b) = (n(3), n(4));
+            match st {
+                Ligature { ligature_sets, .. } => ligature_sets.get_mut(a).map(|s| drop_at(s, b)).unwrap_or(false),
+                Context1 { rule_sets, .. } => rule_sets.get_mut(a).map(|s| drop_at(s, b)).unwrap_or(false),
+                ChainContext1 { rule_sets, .. } => rule_sets.get_mut(a).map(|s| drop_at(s, b)).unwrap_or(false),
+                Context2 { rule_sets, .. } => rule_sets.get_mut(a).and_then(|s| s.as_mut()).map(|s| drop_at(s, b)).unwrap_or(false),
+                ChainContext2 { rule_sets, .. } => rule_sets.get_mut(a).and_then(|s| s.as_mut()).map(|s| drop_at(s, b)).unwrap_or(false),
+                Context3 { lookups, .. } => drop_at(lookups, b),
+                ChainContext3 { lookups, .. } => drop_at(lookups, b),
+                _ => false,
+            }
+        }
+        "zf" => match gsub.lookups.get_mut(n(1)) {
+            Some(l) if l.flags != 0 || l.mark_filtering_set.is_some() => {
+                l.flags = 0;
+                l.mark_filtering_set = None;
+                true
+            }
+            _ => false,
+        },
+        "dg" => c.spec.gdef.take().is_some(),
+        "dc" => c.reqs.get_mut(n(1)).map(|q| q.text.len() > 1 && drop_at(&mut q.text, n(2))).unwrap_or(false),
+        "df" => c.reqs.get_mut(n(1)).map(|q| drop_at(&mut q.features, n(2))).unwrap_or(false),
+        "fl" => c.reqs.get_mut(n(1)).map(|q| q.flags != 0 && { q.flags = 0; true }).unwrap_or(false),
+        "lv" => c.reqs.get_mut(n(1)).map(|q| q.level != 0 && { q.level = 0; true }).unwrap_or(false),
+        _ => false,
+    }
+}
+
+pub fn apply_ops(c: &mut Case, ops: &str) {
+    for op in ops.split(',') {
+        if !op.is_empty() {
+            apply_op(c, op);
+        }
+    }
+}
+
+fn candidate_ops(c: &Case, q: usize) -> Vec<String> {
+    let mut v = Vec::new();
+    use SubstSubtable::*;
+    if let Some(gsub) = &c.spec.gsub {
+        for (i, _l) in gsub.lookups.iter().enumerate() {
+            v.push(format!("dl:{i}"));
+        }
+        for (i, l) in gsub.lookups.iter().enumerate() {
+            if l.subtables.len() > 1 {
+                for j in 0..l.subtables.len() {
+                    v.push(format!("ds:{i}:{j}"));
+                }
+            }
+            for (j, st) in l.subtables.iter().enumerate() {
+                let sets: Vec<usize> = match st {
+                    Ligature { ligature_sets, .. } => ligature_sets.iter().map(|s| s.len()).collect(),
+                    Context1 { rule_sets, .. } => rule_sets.iter().map(|s| s.len()).collect(),
+                    ChainContext1 { rule_sets, .. } => rule_sets.iter().map(|s| s.len()).collect(),
+                    Context2 { rule_sets, .. } => rule_sets.iter().map(|s| s.as_ref().map(|x| x.len()).unwrap_or(0)).collect(),
+                    ChainContext2 { rule_sets, .. } => rule_sets.iter().map(|s| s.as_ref().map(|x| x.len()).unwrap_or(0)).collect(),
+                    Context3 { lookups, .. } => vec![lookups.len()],
+                    ChainContext3 { lookups, .. } => vec![lookups.len()],
+                    _ => vec![],
+                };
+                for (a, k) in sets.iter().enumerate() {
+                    for b in 0..*k {
+                        v.push(format!("dr:{i}:{j}:{a}:{b}"));
+                    }
+                }
+            }
+            v.push(format!("zf:{i}"));
+        }
+    }
+    v.push("dg".into());
+    if let Some(rq) = c.reqs.get(q) {
+        for p in 0..rq.text.len() {
+            v.push(format!("dc:{q}:{p}"));
+        }
+        for i in 0..rq.features.len() {
+            v.push(format!("df:{q}:{i}"));
+        }
+        v.push(format!("fl:{q}"));
+        v.push(format!("lv:{q}"));
+    }
+    v
+}
+
+// ---------------------------------------------------------------------------------------------
+// running and printing
+
+fn shape_spec(spec: &FontSpec, req: &Req) -> Result<Vec<G>, String> {
+    let bytes = build(spec);
+    let req = req.clone();
+    catch(move || match rustybuzz::Face::from_slice(&bytes, 0) {
+        Some(face) => Ok(shape_req(&face, &req)),
+        None => Err("noface".to_string()),
+    })
+    .and_then(|x| x)
+}
+
+fn fmt_out(gs: &[G]) -> String {
+    let v: Vec<String> = gs.iter().map(|g| format!("{}={}#{}", g.gid, g.cluster, g.flags)).collect();
+    v.join("|")
+}
+
+fn print_case(k: u64, c: &Case, dump: bool, only_req: Option<usize>, fired: bool) {
+    println!("font {}", k);
+    println!("coq {}", c.spec.coq());
+    let kinds: Vec<&str> = c.spec.gsub.as_ref().map(|l| l.lookups.iter().map(kind_of).collect()).unwrap_or_default();
+    println!("kinds {}", kinds.join(","));
+    let bytes = build(&c.spec);
+    if dump {
+        println!("dbg {:?}", c.spec);
+        println!("b64 {}", b64_encode(&bytes));
+    }
+    // variants with one lookup emptied, for the "fired" statistics
+    let nl = kinds.len();
+    let variants: Vec<Vec<u8>> = if fired {
+        (0..nl)
+            .map(|i| {
+                let mut s = c.spec.clone();
+                if let Some(g) = s.gsub.as_mut() {
+                    g.lookups[i].subtables.clear();
+                }
+                build(&s)
+            })
+            .collect()
+    } else {
+        Vec::new()
+    };
+    for (j, req) in c.reqs.iter().enumerate() {
+        if let Some(o) = only_req {
+            if o != j {
+                continue;
+            }
+        }
+        println!("req {} {}", j, fmt_req(req));
+        for f in features_of(req) {
+            println!("uf {} {} {} {} {}", j, f.tag.0, f.value, f.start, f.end);
+        }
+        let b2 = bytes.clone();
+        let r2 = req.clone();
+        let res = catch(move || rustybuzz::Face::from_slice(&b2, 0).map(|face| shape_req(&face, &r2)));
+        match &res {
+            Ok(Some(gs)) => println!("out {} {}", j, fmt_out(gs)),
+            Ok(None) => println!("out {} panic noface", j),
+            Err(cl) => println!("out {} panic {}", j, cl),
+        }
+        if fired {
+            if let Ok(Some(gs)) = &res {
+                let mut f: Vec<String> = Vec::new();
+                for (i, vb) in variants.iter().enumerate() {
+                    let vb = vb.clone();
+                    let r3 = req.clone();
+                    let o = catch(move || rustybuzz::Face::from_slice(&vb, 0).map(|face| shape_req(&face, &r3)));
+                    let same = match &o {
+                        Ok(Some(g2)) => g2.len() == gs.len() && g2.iter().zip(gs.iter()).all(|(a, b)| a.gid == b.gid && a.cluster == b.cluster),
+                        _ => false,
+                    };
+                    if !same {
+                        f.push(i.to_string());
+                    }
+                }
+                println!("fired {} {}", j, f.join(","));
+            }
+        }
+    }
+}
+
+fn gen(args: &[String]) {
+    let seed = arg_u64(args, "--seed", 1);
+    let fonts = arg_u64(args, "--fonts", 10);
+    let texts = arg_u64(args, "--texts", 8);
+    let first = arg_u64(args, "--first", 0);
+    let only = arg_str(args, "--only").and_then(|x| x.parse::<u64>().ok());
+    let dump = args.iter().any(|a| a == "--dump");
+    let nofired = args.iter().any(|a| a == "--nofired");
+    let ops = arg_str(args, "--ops").unwrap_or("");
+    let only_req = arg_str(args, "--text").and_then(|x| x.parse::<usize>().ok());
+    let range: Vec<u64> = match only {
+        Some(k) => vec![k],
+        None => (first..first + fonts).collect(),
+    };
+    for k in range {
+        let mut c = gen_case(seed, k, texts);
+        apply_ops(&mut c, ops);
+        print_case(k, &c, dump, only_req, !nofired);
+    }
+}
+
+fn variants(args: &[String]) {
+    let seed = arg_u64(args, "--seed", 1);
+    let texts = arg_u64(args, "--texts", 8);
+    let k = arg_u64(args, "--only", 0);
+    let q = arg_u64(args, "--text", 0) as usize;
+    let ops = arg_str(args, "--ops").unwrap_or("");
+    let mut base = gen_case(seed, k, texts);
+    apply_ops(&mut base, ops);
+    for op in candidate_ops(&base, q) {
+        let mut c = base.clone();
+        if !apply_op(&mut c, &op) {
+            continue;
+        }
+        println!("variant {}", if ops.is_empty() { op.clone() } else { format!("{},{}", ops, op) });
+        print_case(k, &c, false, Some(q), false);
+    }
+}
+
+// ---------------------------------------------------------------------------------------------
+// fixed regression fonts
+
+fn sub(a: u16, b: u16) -> Lookup<SubstSubtable> {
+    Lookup::one(SubstSubtable::Single2 { coverage: Coverage::Glyphs(vec![a]), substitutes: vec![b] })
+}
+
+fn req_of(gids: &[u16]) -> Req {
+    Req { text: gids.iter().enumerate().map(|(i, g)| (pua(*g as u32 - 1), i as u32)).collect(), ..Req::default() }
+}
+
+/// The font that exposed the forward overlapping copy of move_to's rewind:
+/// one context lookup with rules `a b -> [0 -> lig]` and `c d -> [1 -> (d -> D), 0 -> (c -> C)]`.
+pub fn move_to_rewind_case() -> Case {
+    // glyphs: a=1 b=2 c=3 d=4 e=5 X=6 C=7 D=8
+    let mut s = FontSpec::basic(10);
+    let ctx = Lookup::one(SubstSubtable::Context1 {
+        coverage: Coverage::Glyphs(vec![1, 3]),
+        rule_sets: vec![
+            vec![SeqRule { input: vec![2], lookups: vec![SeqLookup { sequence_index: 0, lookup_index: 1 }] }],
+            vec![SeqRule {
+                input: vec![4],
+                lookups: vec![SeqLookup { sequence_index: 1, lookup_index: 2 }, SeqLookup { sequence_index: 0, lookup_index: 3 }],
+            }],
+        ],
+    });
+    let lig = Lookup::one(SubstSubtable::Ligature {
+        coverage: Coverage::Glyphs(vec![1]),
+        ligature_sets: vec![vec![crate::fontgen::Ligature { glyph: 6, components: vec![2] }]],
+    });
+    s.gsub = Some(Layout::single_feature_top(*b"liga", 1, vec![ctx, lig, sub(4, 8), sub(3, 7)]));
+    let mut reqs = vec![req_of(&[1, 2, 3, 4, 5])];
+    for lv in 1..3 {
+        let mut q = req_of(&[1, 2, 3, 4, 5, 1, 2, 3, 4]);
+        q.level = lv;
+        reqs.push(q);
+    }
+    Case { spec: s, reqs }
+}
+
+/// `end` of apply_lookup going below zero: lookup 0 = context format 3 over {a,b} with records
+/// [0 -> lookup 1, 0 -> lookup 0]; lookup 1 = multiple a -> (), b -> ().  Text a b b a: everything is deleted.
+pub fn end_underflow_case() -> Case {
+    let mut s = FontSpec::basic(6);
+    let ctx = Lookup::one(SubstSubtable::Context3 {
+        coverages: vec![Coverage::Glyphs(vec![1, 2])],
+        lookups: vec![SeqLookup { sequence_index: 0, lookup_index: 1 }, SeqLookup { sequence_index: 0, lookup_index: 0 }],
+    });
+    let del = Lookup::one(SubstSubtable::Multiple { coverage: Coverage::Glyphs(vec![1, 2]), sequences: vec![vec![], vec![]] });
+    s.gsub = Some(Layout::single_feature_top(*b"liga", 1, vec![ctx, del]));
+    let mut reqs = vec![req_of(&[1, 2, 2, 1]), req_of(&[3, 1, 2, 2, 1, 3]), req_of(&[3, 3, 1, 2, 2, 1])];
+    reqs[1].level = 1;
+    reqs[2].level = 2;
+    Case { spec: s, reqs }
+}
+
+fn corpus(_args: &[String]) {
+    let c = move_to_rewind_case();
+    print_case(0, &c, true, None, true);
+    print_case(1, &end_underflow_case(), true, None, true);
+    // the documented expectation, checked here independently of the model
+    match shape_spec(&c.spec, &c.reqs[0]) {
+        Ok(gs) => {
+            let ids: Vec<u32> = gs.iter().map(|g| g.gid).collect();
+            if ids != vec![6, 7, 8, 5] {
+                println!("oracle-fail move-to-rewind expected=[6, 7, 8, 5] got={:?}", ids);
+            }
+        }
+        Err(e) => println!("oracle-fail move-to-rewind panic {}", e),
+    }
+}
+
+// ---------------------------------------------------------------------------------------------
+// independent oracles (no Gallina model involved)
+
+fn oracle_fail(kind: &str, spec: &FontSpec, req: &Req, want: &str, got: &str) {
+    println!("oracle-fail {} want={} got={} req=[{}] b64={} dbg={:?}", kind, want, got, fmt_req(req), b64_encode(&build(spec)), spec);
+}
+
+fn ids_clusters(gs: &[G]) -> Vec<(u32, u32)> {
+    gs.iter().map(|g| (g.gid, g.cluster)).collect()
+}
+
+fn distinct_clusters(r: &mut Rng, len: usize) -> Vec<u32> {
+    match r.below(3) {
+        0 => (0..len as u32).collect(),
+        1 => (0..len as u32).map(|i| 3 * i + 1).collect(),
+        _ => {
+            // a random permutation (non-monotone but distinct)
+            let mut v: Vec<u32> = (0..len as u32).collect();
+            for i in (1..len).rev() {
+                let j = r.below(i as u64 + 1) as usize;
+                v.swap(i, j);
+            }
+            v
+        }
+    }
+}
+
+fn oracle(args: &[String]) {
+    let seed = arg_u64(args, "--seed", 1);
+    let n = arg_u64(args, "--n", 200);
+    let mut r = Rng::new(seed ^ 0x0C06_0C06);
+    let mut evals = 0u64;
+    let mut nontrivial = 0u64;
+    let mut bad = 0u64;
+    for _ in 0..n {
+        let ng: u16 = r.range(6, 20) as u16;
+        let hot = r.range(3, 5) as u16;
+        let g = G0 { n: ng, hot, marks: vec![] };
+        let len = r.range(1, 10) as usize;
+        let text: Vec<u16> = (0..len).map(|_| r.range(1, (hot as u64 + 1).min(ng as u64 - 1)) as u16).collect();
+        let level = r.below(3) as u8;
+        // ---------- (i) single substitution = map (also with a ranged user feature)
+        {
+            let st = gen_subtable(&mut r, &g, Kind::Single, &[Kind::Single], 0);
+            let f = |x: u16| -> u16 {
+                match &st {
+                    SubstSubtable::Single1 { coverage, delta } => {
+                        if coverage.index_of(x).is_some() { (x as i32 + *delta as i32) as u16 } else { x }
+                    }
+                    SubstSubtable::Single2 { coverage, substitutes } => match coverage.index_of(x) {
+                        Some(i) => substitutes.get(i as usize).copied().unwrap_or(x),
+                        None => x,
+                    },
+                    _ => x,
+                }
+            };
+            let ranged = r.chance(1, 2);
+            let mut spec = FontSpec::basic(ng);
+            spec.gsub = Some(Layout::single_feature(if ranged { *b"ss01" } else { *b"liga" }, vec![Lookup::one(st.clone())]));
+            let mut q = req_of(&text);
+            q.level = level;
+            let (a, b) = (r.below(len as u64 + 1) as u32, r.below(len as u64 + 2) as u32);
+            if ranged {
+                q.features = vec![format!("ss01[{}:{}]", a, b)];
+            }
+            let want: Vec<(u32, u32)> = text
+                .iter()
+                .enumerate()
+                .map(|(i, x)| {
+                    let on = !ranged || ((a == 0 && b == u32::MAX) || (a <= i as u32 && (i as u32) < b));
+                    ((if on { f(*x) } else { *x }) as u32, i as u32)
+                })
+                .collect();
+            evals += 1;
+            match shape_spec(&spec, &q) {
+                Ok(gs) => {
+                    let got = ids_clusters(&gs);
+                    if got != want {
+                        bad += 1;
+                        oracle_fail("single-map", &spec, &q, &format!("{:?}", want), &format!("{:?}", got));
+                    }
+                    if want.iter().zip(text.iter()).any(|(w, t)| w.0 != *t as u32) {
+                        nontrivial += 1;
+                    }
+                }
+                Err(e) => {
+                    bad += 1;
+                    oracle_fail("single-map", &spec, &q, "no panic", &e);
+                }
+            }
+        }
+        // ---------- (ii) one ligature lookup, no skipping: greedy first rule, cluster = min (levels 0/1)
+        {
+            let st = gen_subtable(&mut r, &g, Kind::Ligature, &[Kind::Ligature], 0);
+            let mut spec = FontSpec::basic(ng);
+            spec.gsub = Some(Layout::single_feature(*b"liga", vec![Lookup::one(st.clone())]));
+            let cl = distinct_clusters(&mut r, len);
+            let mut q = req_of(&text);
+            for (i, t) in q.text.iter_mut().enumerate() {
+                t.1 = cl[i];
+            }
+            q.level = level;
+            let mut want: Vec<(u32, u32)> = Vec::new();
+            if let SubstSubtable::Ligature { coverage, ligature_sets } = &st {
+                let mut i = 0;
+                while i < len {
+                    let mut done = false;
+                    if let Some(ci) = coverage.index_of(text[i]) {
+                        if let Some(set) = ligature_sets.get(ci as usize) {
+                            for lig in set {
+                                let k = lig.components.len();
+                                if i + k < len && (0..k).all(|j| text[i + 1 + j] == lig.components[j]) {
+                                    let c = if level == 2 { cl[i] } else { (i..=i + k).map(|j| cl[j]).min().unwrap() };
+                                    want.push((lig.glyph as u32, c));
+                                    i += k + 1;
+                                    done = true;
+                                    break;
+                                }
+                            }
+                        }
+                    }
+                    if !done {
+                        want.push((text[i] as u32, cl[i]));
+                        i += 1;
+                    }
+                }
+            }
+            evals += 1;
+            match shape_spec(&spec, &q) {
+                Ok(gs) => {
+                    let got = ids_clusters(&gs);
+                    if got != want {
+                        bad += 1;
+                        oracle_fail("ligature-greedy-min", &spec, &q, &format!("{:?}", want), &format!("{:?}", got));
+                    }
+                    if want.len() != len {
+                        nontrivial += 1;
+                    }
+                }
+                Err(e) => {
+                    bad += 1;
+                    oracle_fail("ligature-greedy-min", &spec, &q, "no panic", &e);
+                }
+            }
+        }
+        // ---------- (iii) multiple substitution = flat_map (glyph ids; clusters when nothing is deleted)
+        {
+            let st = gen_subtable(&mut r, &g, Kind::Multiple, &[Kind::Multiple], 0);
+            let mut spec = FontSpec::basic(ng);
+            spec.gsub = Some(Layout::single_feature(*b"ccmp", vec![Lookup::one(st.clone())]));
+            let mut q = req_of(&text);
+            q.level = level;
+            let mut want: Vec<(u32, u32)> = Vec::new();
+            let mut deleted = false;
+            if let SubstSubtable::Multiple { coverage, sequences } = &st {
+                for (i, x) in text.iter().enumerate() {
+                    match coverage.index_of(*x).and_then(|ci| sequences.get(ci as usize)) {
+                        Some(seq) => {
+                            if seq.is_empty() {
+                                deleted = true;
+                            }
+                            for y in seq {
+                                want.push((*y as u32, i as u32));
+                            }
+                        }
+                        None => want.push((*x as u32, i as u32)),
+                    }
+                }
+            }
+            evals += 1;
+            match shape_spec(&spec, &q) {
+                Ok(gs) => {
+                    let got = ids_clusters(&gs);
+                    let okk = if deleted {
+                        got.iter().map(|x| x.0).collect::<Vec<_>>() == want.iter().map(|x| x.0).collect::<Vec<_>>()
+                    } else {
+                        got == want
+                    };
+                    if !okk {
+                        bad += 1;
+                        oracle_fail("multiple-flat-map", &spec, &q, &format!("{:?}", want), &format!("{:?}", got));
+                    }
+                    if want.len() != len || want.iter().zip(text.iter()).any(|(w, t)| w.0 != *t as u32) {
+                        nontrivial += 1;
+                    }
+                }
+                Err(e) => {
+                    bad += 1;
+                    oracle_fail("multiple-flat-map", &spec, &q, "no panic", &e);
+                }
+            }
+        }
+        // ---------- (iv) alternate with value k
+        {
+            let st = gen_subtable(&mut r, &g, Kind::Alternate, &[Kind::Alternate], 0);
+            let mut spec = FontSpec::basic(ng);
+            spec.gsub = Some(Layout::single_feature(*b"aalt", vec![Lookup::one(st.clone())]));
+            let k = r.range(0, 5) as u32;
+            let mut q = req_of(&text);
+            q.level = level;
+            q.features = vec![format!("aalt={}", k)];
+            let want: Vec<(u32, u32)> = text
+                .iter()
+                .enumerate()
+                .map(|(i, x)| {
+                    let y = match &st {
+                        SubstSubtable::Alternate { coverage, alternates } => match coverage.index_of(*x).and_then(|ci| alternates.get(ci as usize)) {
+                            Some(alts) if k >= 1 && (k as usize) <= alts.len() => alts[k as usize - 1],
+                            _ => *x,
+                        },
+                        _ => *x,
+                    };
+                    (y as u32, i as u32)
+                })
+                .collect();
+            evals += 1;
+            match shape_spec(&spec, &q) {
+                Ok(gs) => {
+                    let got = ids_clusters(&gs);
+                    if got != want {
+                        bad += 1;
+                        oracle_fail("alternate-value", &spec, &q, &format!("{:?}", want), &format!("{:?}", got));
+                    }
+                    if want.iter().zip(text.iter()).any(|(w, t)| w.0 != *t as u32) {
+                        nontrivial += 1;
+                    }
+                }
+                Err(e) => {
+                    bad += 1;
+                    oracle_fail("alternate-value", &spec, &q, "no panic", &e);
+                }
+            }
+        }
+        // ---------- (v) stage order: lookup 1 (x->y) in `rvrn` (stage 0) runs before lookup 0 (y->z) in `liga`
+        //                 (stage 1); with both in stage 1 (`ccmp`, `liga`) lookup 0 runs first
+        {
+            let (x, y, z) = (1u16, 2u16, 3u16);
+            for same_stage in [false, true] {
+                let mut spec = FontSpec::basic(ng);
+                spec.gsub = Some(Layout::with_features(
+                    vec![(if same_stage { *b"ccmp" } else { *b"rvrn" }, vec![1]), (*b"liga", vec![0])],
+                    vec![sub(y, z), sub(x, y)],
+                ));
+                let mut q = req_of(&text);
+                q.level = level;
+                let want: Vec<(u32, u32)> = text
+                    .iter()
+                    .enumerate()
+                    .map(|(i, t)| {
+                        let v = if same_stage {
+                            // lookup 0 (y->z) then lookup 1 (x->y)
+                            let a = if *t == y { z } else { *t };
+                            if a == x { y } else { a }
+                        } else {
+                            let a = if *t == x { y } else { *t };
+                            if a == y { z } else { a }
+                        };
+                        (v as u32, i as u32)
+                    })
+                    .collect();
+                evals += 1;
+                match shape_spec(&spec, &q) {
+                    Ok(gs) => {
+                        let got = ids_clusters(&gs);
+                        if got != want {
+                            bad += 1;
+                            oracle_fail(if same_stage { "same-stage-order" } else { "stage-order" }, &spec, &q, &format!("{:?}", want), &format!("{:?}", got));
+                        }
+                        if text.contains(&x) {
+                            nontrivial += 1;
+                        }
+                    }
+                    Err(e) => {
+                        bad += 1;
+                        oracle_fail("stage-order", &spec, &q, "no panic", &e);
+                    }
+                }
+            }
+        }
+    }
+    println!("oracle-summary evaluations={} nontrivial={} bad={}", evals, nontrivial, bad);
+}
+
+fn shape_b64(args: &[String]) {
+    let reqs = arg_str(args, "--req").unwrap_or("");
+    let mut s = String::new();
+    std::io::stdin().read_to_string(&mut s).ok();
+    let data = b64_decode(&s);
+    let req = parse_req(reqs);
+    for f in features_of(&req) {
+        println!("uf 0 {} {} {} {}", f.tag.0, f.value, f.start, f.end);
+    }
+    let res = catch(move || rustybuzz::Face::from_slice(&data, 0).map(|face| shape_req(&face, &req)));
+    match res {
+        Ok(Some(gs)) => println!("out 0 {}", fmt_out(&gs)),
+        Ok(None) => println!("out 0 panic noface"),
+        Err(c) => println!("out 0 panic {}", c),
+    }
 }
